@@ -155,6 +155,17 @@ def lex_comment(
     then returns what they return.
     """
 
+    if (
+        preserve["state"] == Preserve.COMMENT
+        and preserve["end"] in c_info["single_comments"].values()
+    ):
+        # Inside of a single-character comment (e.g. '#' to the end of
+        # the line), the characters of the multi-character comment
+        # delimiters have no special meaning.
+        return lex_singlechar_comments(
+            char, lexeme, preserve, c_info["single_comments"]
+        )
+
     if char in c_info["multi_chars"]:
         return lex_multichar_comments(
             char,
